@@ -193,8 +193,8 @@ typedef struct program_s
 {
     char *name;	                /* Name of file that defined prog */
     int flags;
-    unsigned short ref;	        /* Reference count */
-    unsigned short func_ref;
+    unsigned int ref;	        /* Reference count: blueprint, clones, inheriting programs */
+    unsigned int func_ref;      /* function pointers into this program */
     char *program;              /* The binary instructions (A_PROGRAM area) */
     int id_number;              /* used to associate information with this
                                  * prog block without needing to increase the
